@@ -4,6 +4,7 @@ import (
 	"bytes"
 	"fmt"
 	"math/big"
+	"os"
 	"strings"
 
 	ref "github.com/oasisprotocol/ed25519/internal/zzverifref"
@@ -311,11 +312,11 @@ func compareTriple(c *rt.Ctx, prop string, t triple, vs variantSpec, zip bool, d
 
 func jobTriples(c *rt.Ctx, prop string, zip bool) {
 	sp := newTripleSpace(c.Thorough())
-	bound := 2
+	bound := 3
 	if c.Thorough() {
-		bound = 3
+		bound = 5
 	}
-	if b, ok := c.Params["bound"]; ok {
+	if b := os.Getenv("VERIF_BOUND"); b != "" {
 		fmt.Sscan(b, &bound)
 	}
 	c.Require(string(ref.Accept), string(ref.BadLen), string(ref.SNotMinimal), string(ref.AUndecodable), string(ref.RUndecodable), string(ref.Equation), "acc-cell-complete")
